@@ -229,6 +229,7 @@ void run_compressed(const VPlan &pl) {
         .str("gen", pl.kind).raw("tags", jstrs(pl.tags)).num("seed", (long long) (pl.seed & 0x7fffffff)).end();
     std::vector<long long> nd;
     for (auto v : data) nd.push_back(nm((Wide<K>) v));
+    if (getenv("VERIF_RAW")) { std::string rs; for (auto v : data) rs += std::to_string(v) + " "; fprintf(stderr, "RAW x=%lld: %s\n", x, rs.c_str()); }
     auto &o = out.begin("Build").raw("data", jarr(nd)).str("out", res);
     if (res == "ok") {
         // levels top-down as the class stores them: keys and decoded intercepts
@@ -278,14 +279,15 @@ void drive(const Plan &p, uint64_t salt, int exhaustive_level, size_t eps, bool 
     int reps = quick ? 1 : 4;
     for (int rep = 0; rep < reps; ++rep)
         for (auto &kind : kinds)
-            for (int where = 0; where < 4; ++where) {
-                if (small_type && where == 3) continue;
+            for (int where = 0; where < 5; ++where) {
+                if (small_type && where >= 3) continue;
                 size_t nmax = quick ? 300 : 3000;
-                size_t n = where == 3 ? 20 + rng.below(nmax) : 1 + rng.below(rng.chance(1, 3) ? 12 : nmax);
+                size_t n = where >= 3 ? 20 + rng.below(nmax) : 1 + rng.below(rng.chance(1, 3) ? 12 : nmax);
                 VPlan pl{kind, n, where, {kind}, rng.next(), {}};
                 if (where == 1) pl.tags.push_back("at_lowest");
                 if (where == 2) pl.tags.push_back("ends_at_max-1");
                 if (where == 3) pl.tags.push_back("wide");
+                if (where == 4) pl.tags.push_back("clustered");
                 run(pl);
             }
 }
